@@ -14,6 +14,7 @@ import importlib
 
 from ..core import R, rng
 from .. import lib
+from ..model import bls as bls_model
 from ..model import params, zcash
 from . import C07_full
 
@@ -459,6 +460,127 @@ def task_flips(a, env):
     return r
 
 
+# ------------------------------------------------------------------ (D) decoder histories
+M61 = 2 ** 61 - 1  # ints that differ by a multiple of it have equal hash() in CPython
+
+
+def collide_case(group, k, via_bytes):
+    """history: a valid encoding is decoded, then words that differ from it by multiples of 2^61 - 1
+    (equal hash(), different words); each is judged by the model like any other word"""
+    r_ = params.BLS_R
+    out = []
+    if group == "E1":
+        z = zcash.encode_g1(zcash.E1.mul(params.bls_g1(), k % r_))
+        first = word_case_g1(z, via_bytes)
+        if first:
+            return [("valid", first)]
+        for lbl, w in (("+M61", z + M61), ("-M61", z - M61), ("+M61<<64", z + (M61 << 64)), ("+M61*p-ish", z + M61 * (1 << 300)),
+                       ("-M61<<200", z - (M61 << 200)), ("+3*M61", z + 3 * M61)):
+            if 0 <= w < (1 << 384):
+                bad = word_case_g1(w, via_bytes)
+                if bad:
+                    out.append((lbl, bad))
+                if word_case_g1(z, via_bytes):
+                    out.append((lbl + ":then-original", word_case_g1(z, via_bytes)))
+    else:
+        z1, z2 = zcash.encode_g2(zcash.E2.mul(params.bls_g2(), k % r_))
+        first = word_case_g2(z1, z2, via_bytes)
+        if first:
+            return [("valid", first)]
+        for lbl, (w1, w2) in (("z2+M61", (z1, z2 + M61)), ("z2-M61", (z1, z2 - M61)), ("z1+M61", (z1 + M61, z2)), ("z1-M61", (z1 - M61, z2)),
+                              ("z2+M61<<320", (z1, z2 + (M61 << 320))), ("z2+M61*2^323", (z1, z2 + M61 * (1 << 323))),
+                              ("both+M61", (z1 + M61, z2 + M61)), ("z2+2*M61", (z1, z2 + 2 * M61))):
+            if 0 <= w1 < (1 << 384) and 0 <= w2 < (1 << 384):
+                bad = word_case_g2(w1, w2, via_bytes)
+                if bad:
+                    out.append((lbl, bad))
+                again = word_case_g2(z1, z2, via_bytes)
+                if again:
+                    out.append((lbl + ":then-original", again))
+    return out
+
+
+def task_collide(a, env):
+    r = R("decode:words-with-equal-hash()-after-a-valid-word")
+    for group in ("E1", "E2"):
+        for k in a["ks"]:
+            for via in (False, True):
+                for lbl, bad in collide_case(group, k, via):
+                    r.viol("C11:%s:after-valid-word:%s" % ("G1" if group == "E1" else "G2", bad[0]), ME + ":replay_collide",
+                           {"group": group, "k": k, "bytes": via}, bad[1], bad[2], note=lbl)
+                r.ev += 12
+                r.dk.add((group, k, via))
+    r.sample({"history": "decompress_G2((z1, z2)); decompress_G2((z1, z2 + 2^61 - 1)); decompress_G2((z1, z2)); ..."})
+    return r
+
+
+def replay_collide(a):
+    out = collide_case(a["group"], a["k"], a["bytes"])
+    return None if not out else {"step": out[0][0], "class": out[0][1][0], "expected": out[0][1][1], "observed": out[0][1][2]}
+
+
+def sweep_case(group, n, via_bytes):
+    """history: 4 anchor encodings are decoded, then n further distinct valid encodings; after 1, 2, 3, 4, 6,
+    8, 12, 16, ... of them the anchors are decoded again.  Every decode must give the model's point
+    (a bounded table of recent decodes must not serve a stale or displaced entry)."""
+    pc, g2p = _pc(), _g2p()
+    E, G = (zcash.E1, params.bls_g1()) if group == "E1" else (zcash.E2, params.bls_g2())
+    pts, Pm = [], G
+    for _ in range(n + 4):
+        pts.append(Pm)
+        Pm = E.add(Pm, G)
+    if group == "E1":
+        f = g2p.pubkey_to_G1 if via_bytes else pc.decompress_G1
+        enc = (lambda Q: bls_model.g1_bytes(Q)) if via_bytes else zcash.encode_g1
+    else:
+        f = g2p.signature_to_G2 if via_bytes else pc.decompress_G2
+        enc = (lambda Q: bls_model.g2_bytes(Q)) if via_bytes else zcash.encode_g2
+    checkpoints = set()
+    c = 1
+    while c <= n:
+        checkpoints |= {c, c + c // 2}
+        c *= 2
+    checkpoints.add(n)
+
+    def dec(i):
+        got = _dec_outcome1(f, enc(pts[i]), group)
+        return None if got == ("ok", pts[i]) else (i, ("ok", "the model point #%d" % i), got)
+
+    for i in range(4):
+        bad = dec(i)
+        if bad:
+            return (0,) + bad
+    for j in range(1, n + 1):
+        bad = dec(3 + j)
+        if bad:
+            return (j,) + bad
+        if j in checkpoints:
+            for i in range(4):
+                bad = dec(i)
+                if bad:
+                    return (j,) + bad
+    return None
+
+
+def task_sweep(a, env):
+    r = R("decode:anchors-again-after-n-distinct-valid-encodings")
+    for via in a["vias"]:
+        bad = sweep_case(a["group"], a["n"], via)
+        r.ev += a["n"] + 4 * 20
+        r.dk.add((a["group"], via))
+        if bad:
+            r.viol("C11:%s:stale-decode-after-many-distinct" % ("G1" if a["group"] == "E1" else "G2"), ME + ":replay_sweep",
+                   {"group": a["group"], "n": bad[0], "bytes": via}, bad[2], bad[3],
+                   note="encoding #%d decoded after %d further distinct encodings" % (bad[1], bad[0]))
+    r.sample({"group": a["group"], "n": a["n"], "history": "decode e0..e3, e4, e0..e3, e5, e0..e3, e6, e7, e0..e3, ..."})
+    return r
+
+
+def replay_sweep(a):
+    bad = sweep_case(a["group"], a["n"], a["bytes"])
+    return None if not bad else {"after": bad[0], "encoding": bad[1], "expected": bad[2], "observed": bad[3]}
+
+
 def run(ctx):
     ctx.rule = ("(A) one case per (point, scaling, function); (B) one case per (flags, x class, second-word "
                 "class, entry point); (C) one case per flipped bit; distinct keys as listed")
@@ -483,4 +605,8 @@ def run(ctx):
             for lo in range(nt):
                 tasks.append(("flips", {"group": group, "k": k, "lo": lo if not q else lo * 2,
                                         "step": nt if not q else 8}))
+    tasks.append(("collide", {"ks": [1, 2, 0x1234567890ABCDEF]}))
+    for group, n in (("E2", 1100 if q else 4500), ("E1", 2200 if q else 20000)):
+        for via in (False, True):
+            tasks.append(("sweep", {"group": group, "n": n, "vias": [via]}))
     ctx.pmap(ME, tasks)
